@@ -13,6 +13,8 @@ def setup_dir(root, sc):
         os.makedirs(os.path.dirname(p), exist_ok=True)
         if content == "<dir>":
             os.makedirs(p)
+        elif isinstance(content, str) and content.startswith("<symlink:"):
+            os.symlink(content[len("<symlink:"):-1], p)
         else:
             with open(p, "wb") as f:
                 f.write(content.encode("utf-8") if isinstance(content, str) else content)
